@@ -17,7 +17,7 @@ func init() {
 	register(&Property{
 		Meta: report.Meta{
 			Property:    "C18",
-			Explanation: "Error-discipline analysis (engine E6) over the stream-handling code: the set S of functions of packages container, token, delegation, invocation, envelope reachable from the exported functions that take an io.Reader / io.Writer (plus the CIDReader/CIDWriter methods) is computed on the in-module call graph; in S every call, defer or go whose callee returns an error and that is stream-related (its receiver or an argument implements io.Reader or io.Writer, or the callee is itself in S) must not lose that error: the error value must be used, every path on which it is tested non-nil must end in a failure return / false / panic or hand the error to the iterator consumer, and a deferred call may not return an error. Exemptions are a frozen table with reasons (hash.Hash.Write never fails; io.EOF ends the CAR iteration - the documented undetectable cut; calls on paths that already return an error). (R2) ldRead converts io.EOF from ReadUvarint / ReadFull into io.ErrUnexpectedEOF and only the Peek EOF propagates as a clean end; (R3) CIDReader.Read latches every non-EOF error and CID() returns it; FromSealedReader requires CID() to succeed. Independence from chunking is the contract of bufio / io.ReadFull / base64 / refmt and is not decided. (R4) no object is put back into a sync.Pool while still reachable from what the function returns (positive example under lint/testdata/canary/pool). A function literal run by defer may store an error only into a named result of the enclosing function. On a path that reaches a success return without testing the error of a stream-related call, the error is returned, stored, passed to a call or appears in a fact. No instruction of a library function stores through, or lets copy / append / Put* / Read / a dst or buf parameter fill, a package-level array or slice of numbers, bytes.Buffer or strings.Builder. (R5) every io.Reader / io.Writer argument of a call that leaves the module originates in a parameter, a captured variable, a field, a value of a module type or bufio / base64 / bytes constructors. A call of a Read([]byte)(int,error) method in a function of the stream-handling packages that is not itself named Read sits in a block on a CFG cycle; the canary package lint/testdata/canary/stream must yield exactly its seeded site. (R2) a path of the iterator literal of readCar that returns after readBlock answered a non-nil error, without a yield that received that error, has the fact err == io.EOF. (R1) for a stream-related call inside a loop, the error is compared, returned or passed on by an instruction of that loop (not merely carried to the loop header's phi or stored into a variable that is read only after the loop).",
+			Explanation: "Error-discipline analysis (engine E6) over the stream-handling code: the set S of functions of packages container, token, delegation, invocation, envelope reachable from the exported functions that take an io.Reader / io.Writer (plus the CIDReader/CIDWriter methods) is computed on the in-module call graph; in S every call, defer or go whose callee returns an error and that is stream-related (its receiver or an argument implements io.Reader or io.Writer, or the callee is itself in S) must not lose that error: the error value must be used, every path on which it is tested non-nil must end in a failure return / false / panic or hand the error to the iterator consumer, and a deferred call may not return an error. Exemptions are a frozen table with reasons (hash.Hash.Write never fails; io.EOF ends the CAR iteration - the documented undetectable cut; calls on paths that already return an error). (R2) ldRead converts io.EOF from ReadUvarint / ReadFull into io.ErrUnexpectedEOF and only the Peek EOF propagates as a clean end; (R3) CIDReader.Read latches every non-EOF error and CID() returns it; FromSealedReader requires CID() to succeed. Independence from chunking is the contract of bufio / io.ReadFull / base64 / refmt and is not decided. (R4) no object is put back into a sync.Pool while still reachable from what the function returns (positive example under lint/testdata/canary/pool). A function literal run by defer may store an error only into a named result of the enclosing function. On a path that reaches a success return without testing the error of a stream-related call, the error is returned, stored, passed to a call or appears in a fact. No instruction of a library function stores through, or lets copy / append / Put* / Read / a dst or buf parameter fill, a package-level array or slice of numbers, bytes.Buffer or strings.Builder. (R5) every io.Reader / io.Writer argument of a call that leaves the module originates in a parameter, a captured variable, a field, a value of a module type or bufio / base64 / bytes constructors. A call of a Read([]byte)(int,error) method in a function of the stream-handling packages that is not itself named Read sits in a block on a CFG cycle; the canary package lint/testdata/canary/stream must yield exactly its seeded site. (R2) a path of the iterator literal of readCar that returns after readBlock answered a non-nil error, without a yield that received that error, has the fact err == io.EOF. (R1) for a stream-related call inside a loop, the error is compared, returned or passed on by an instruction of that loop (not merely carried to the loop header's phi or stored into a variable that is read only after the loop). (R2) every function of package container that calls readBlock has a path fact comparing that error with io.EOF.",
 			Assumptions: []string{"bufio, io.ReadFull, encoding/base64 and the refmt-based codecs are correct under arbitrary chunking", "hash.Hash.Write never returns an error (documented)"},
 			Trusted:     []string{"bufio", "io", "encoding/base64", "go-ipld-prime codecs", "golang.org/x/tools/go/ssa v0.29.0"},
 			NotDecided:  []string{"chunking independence", "byte equality of streamed and buffered output (runtime values)"},
@@ -116,6 +116,21 @@ func runC18(x *Ctx) {
 					continue
 				}
 				badI += "the iterator stops without reporting an error that is not known to be io.EOF itself:\n" + p.String() + "\n"
+			}
+		}
+		// and each of them knows the clean end: a caller that hands every error of readBlock on, io.EOF included, turns
+		// the end of a container without blocks into a failure
+		for _, lit := range iterators {
+			knows := false
+			for _, p := range x.pathsQuiet(lit) {
+				for _, fc := range p.Facts {
+					if s := fc.Atom.String(); fc.Atom.Op == "eq" && strings.Contains(s, "*global(io.EOF)") && strings.Contains(s, ctnPkg+"readBlock") {
+						knows = true
+					}
+				}
+			}
+			if !knows {
+				badI += fmt.Sprintf("%s calls readBlock and never compares its error with io.EOF: a container that ends here (no blocks) is reported as broken\n", load.ShortName(lit))
 			}
 		}
 		x.C.Obl("C18.R2", "clean-end:readCar", x.pos(rc), "the CAR iterator ends silently only when readBlock answered io.EOF itself", badI == "" && nI >= 2, firstLines(badI, 12))
